@@ -30,7 +30,7 @@ func runC12(e *Env) {
 //go:norace
 func c12Channel(e *Env) {
 	cfg := WCfg{Entries: allEntries, CtxModes: []int{CtxBackground, CtxNeverDone, CtxCancelled}}
-	cfg.Chan = e.drawChan(true, []int{2, 1, 8})
+	cfg.Chan = e.drawBuffered(e.drawChan(true, []int{2, 1, 8}))
 	cfg.Writers = 1 + e.P(3)
 	cfg.PerWriter = 1 + e.P(3)
 	cfg.Pokers = e.P(3)
